@@ -161,6 +161,20 @@ def check_case(acc, R, case, do_prune):
                               repr(got) if isinstance(got, core.Exc) else got)
             if cellvals and cellvals[-1] > ed:
                 pruned_something = True
+            # both at once: the Euclidean bound and an explicit threshold
+            for m in (ths[::2] if name in ('py.distance', 'c.distance', 'c.matrix', 'c.wps') else ()):
+                got = R.run(name, case, {'use_pruning': True, 'max_dist': m})
+                acc.trans()
+                acc.valid()
+                if base != inf and base < m * (1 - 1e-9):
+                    exp = base
+                else:
+                    continue    # above the threshold the documentation lets use_pruning override max_dist: not judged
+                ok = (not isinstance(got, core.Exc)) and (got == exp or core.ulp_close(got, exp, 4))
+                if not ok:
+                    t = tags_of(case, name, 'use_pruning+max_dist', 'below')
+                    acc.violation('pruning_and_max_dist', name, name.split('.')[0], t, dict(case, use_pruning=True, max_dist=m), exp,
+                                  repr(got) if isinstance(got, core.Exc) else got)
     acc.outcome(dref)
     return pruned_something
 
@@ -204,7 +218,7 @@ def universe(tier, seed, shard, nshards):
                         p = oracles.norm_psi(psi)
                         if oracles.psi_degenerate(p, r, c) or max(p[:2]) > r or max(p[2:]) > c:
                             continue
-                    for (k1, k2) in cat:
+                    for (k1, k2) in (cat if thorough else cat[:4]):
                         for pen, ms in ((None, None), (0.5, None), (None, 1.2)):
                             yield 'U3-shapes', {'s1': univ.catalogue(r, A, k1), 's2': univ.catalogue(c, A, k2), 'window': w,
                                                 'penalty': pen, 'psi': psi, 'max_step': ms, 'inner': 'sq' if (k1 + k2) % 2 == 0 else 'eu'}
@@ -234,7 +248,7 @@ def run(ctx):
                 'U1': 'all pairs len 1..%d x window{None,1,2} x penalty{None,.5} x max_step{None,1.2} x inner x 9 psi forms (symmetric and one-sided, begin and end)' % (4 if ctx.thorough else 3),
                 'U3': 'all shapes up to %d x every window x 13 psi forms x catalogue values' % (6 if ctx.thorough else 5),
                 'thresholds': 'one in every gap (> 1e-6 relative) between consecutive distinct values of {cell optima, distance, Euclidean bound}, one below, one above',
-                'use_pruning': 'only where C03 calls the bound valid: no max_step, and no penalty or equal lengths'},
+                'use_pruning': 'only where C03 calls the bound valid: no max_step, and no penalty or equal lengths; alone and combined with every second threshold as max_dist (judged only when the distance is below the threshold: above it the documentation lets use_pruning override max_dist)'},
         assumptions=['oracle is the same routine without max_dist/use_pruning (its own correctness is C01/C02/C04)',
                      'thresholds within 1e-9 relative of the unbounded value are not judged (rounding-width neighbourhood)'],
         t0=ctx.t0)
